@@ -141,7 +141,8 @@ def apply_op(w, op):
                 kept = [v for v in variables if v in m.fields]
                 limit = None if op["limit"] is None else op["limit"] % len(m.levels)
                 L = len(m.levels) - 1 if limit is None else limit
-            c = qcall(Colander, src["name"], limit_level=limit, output=name, variables=variables)
+            c = qcall(Colander, src["name"], limit_level=limit, output=name,
+                      variables=tuple(variables) if (len(variables) + len(name)) % 3 == 0 else variables)
             qcall(c.strain)
             model = m.select([m.fields.index(k) for k in kept], L)
             model = w.verify(name, model, op)
